@@ -189,11 +189,11 @@ def run(ctx):
 
     picks = []
     if T:
-        # full product through the proxy (two concretizations); on loopback every abstract class 5 times
+        # full product through the proxy (two concretizations); on loopback every abstract class 12 times
         # (all cases touching ::1 run one at a time, the full product would take ~15 min)
         for v in range(2):
             picks += [(i, "socks", v) for i in socks_idx]
-        picks += [(i, "loop", rng.randrange(6)) for i in stratified(loop_idx, 5)]
+        picks += [(i, "loop", rng.randrange(6)) for i in stratified(loop_idx, 12)]
     else:
         picks += [(i, "socks", rng.randrange(6)) for i in stratified(socks_idx, 3)]
         picks += [(i, "loop", rng.randrange(6)) for i in stratified(loop_idx, 1)]
